@@ -162,6 +162,24 @@ def run(ctx, rep) -> None:
             earlier = [x for x in pi.seq[:i] if any(e.kind in ("store_stage",) or (e.kind == "auto" and e.get("api") == "store.store_stage") for e in x.effects)]
             if earlier:
                 split = c.site
+    # the stage that carries the saved progress is re-read inside the closure that retry_on_concurrency_error re-runs
+    stale = None
+    n_fresh = 0
+    for pi in infos:
+        for c in pi.seq:
+            if not any((e.kind == "push") and e.get("cls") == "RunTask" and e.get("same") for e in c.effects):
+                continue
+            for e in c.effects:
+                if e.kind == "store_stage":
+                    n_fresh += 1
+                    parts = str(e.get("ctx")).split(">")
+                    idx = [i for i, q in enumerate(parts) if q.split(".")[-1] == "retry_on_concurrency_error"]
+                    fresh = str(e.get("fresh_ctx") or "")
+                    if not idx or fresh.split(">")[: idx[-1] + 1] != parts[: idx[-1] + 1]:
+                        stale = (e.site, fresh)
+    rep.check(stale is None and n_fresh > 0, "C14.R4", "the progress is stored on a stage re-read on every retry pass", f"{n_fresh} store(s) next to a retry/re-poll push, all on a stage read inside the retried closure" if stale is None else
+              f"the stage stored with the retry/re-poll message was read at [{stale[1]}], outside the closure that is re-run on a version conflict: every pass resubmits the same stale copy, the saved context is lost and the poll counts as a failure",
+              (stale[0] if stale else ("src/stabilize/handlers/run_task/handler.py", 0))[0], (stale[0] if stale else ("", 0))[1], disc="fresh")
     rep.check(with_store > 0, "C14.R4", "saved progress and the retry / re-poll message share a commit", f"{with_store} path(s) with TXN{{store_stage, push RunTask(same)}}", "src/stabilize/handlers/run_task/error.py", 0, disc="same-commit")
     rep.check(split is None, "C14.R4", "no path stores the stage and pushes the retry in different commits", "store and retry push split across commits: a crash in between loses the retry or the progress" if split else "none", (split or ("", 0))[0], (split or ("", 0))[1], disc="split")
     # source shape: context_update branch stores the fresh stage with the retry message
